@@ -8,7 +8,7 @@ from lib.vlib import HARNESS
 META = {
     "property_id": "C18",
     "technique": "Coq proof over a Gallina model of the build engine + history correspondence with fresh-process builds",
-    "level_text": "Theorems: per_label_shape (every build, every mode), evaluating_iff_body_runs, lines_chunking_invariant, flush_leaves_empty, second_run_repeats_nothing (lineWriter), run_done_once_last (the complete stream of a build ends with exactly one run-done carrying the requested target's result), output_inside_window (per label the stream is nothing / up-to-date / lone failed / evaluating, then iff the body ran exactly the lines of what it wrote whatever the chunking, then one completion), callback_receives_the_stream / callback_run_done_once_last / callback_label_events (Build/Pump.v, the REPL's run(..., callback=f): whatever the callback raises it is called with the build's complete stream in order and no send stays blocked), stopping_pump_blocks_the_build, stop_at_first_error_refuted, and for every receiver policy callback_holds_a_prefix (received ++ never-received = the build's stream), alive_receiver_blocks_nothing, stopping_pump_blocks_iff (a stop-at-first-error receiver blocks senders exactly when the callback raises for an event that is not the last); Output/Props_C18.v: one_channel_each_stream_in_order (producers of whole-line blocks -- a process's standard output and standard error -- through ONE channel and one copier: any interleaving, any chunking, every line once and intact, each stream in its own order), separate_copiers_refuted (a copier per stream into the one line writer tears lines), writer_per_copier_delivers_its_stream. Correspondence: per-label event sequences of every build vs the model; real lineWriter vs model on random chunkings, two rounds per writer; the four CLI renderers (line, status, JSON, DOT) driven by the event streams of ten real build scenarios (no panic, well-formed JSON stream). Oracles on the implementation: run-done once/last with Run's error, prints inside the evaluating window, evaluating iff body ran, lone failed event for missing dependencies, output of succeeding AND failing bodies (incl. an unterminated last line) delivered exactly once before the completion event; output of real processes started by os.exec / sh.exec / os.output / sh.output that write thousands of numbered lines to one stream, to both in turn, or to both at the same time (atomic whole-line blocks), with fast and slow consumers, several processes per body, failing processes, parallel targets, two processes of one shell command: every delivered line is the next line of its stream, every stream complete, inside the window; the REPL's run(label, callback=f) with callbacks that raise errors (for every non-Print event, every event, the first, every k-th, run-done only) over scripted and random projects and sequences of runs: run returns, the callback receives per label one of the three shapes, run-done once and last with the build's error, and exactly what a plain Events implementation receives for the same builds, and a plain run after the runs with a callback reports to the project's own listener again; every such run is also a case for Build/Pump.v (events sent, which of them raise, events received, events never received), evaluated inside Coq.",
+    "level_text": "Theorems: per_label_shape (every build, every mode), evaluating_iff_body_runs, lines_chunking_invariant, flush_leaves_empty, second_run_repeats_nothing (lineWriter), run_done_once_last (the complete stream of a build ends with exactly one run-done carrying the requested target's result), output_inside_window (per label the stream is nothing / up-to-date / lone failed / evaluating, then iff the body ran exactly the lines of what it wrote whatever the chunking, then one completion), callback_receives_the_stream / callback_run_done_once_last / callback_label_events (Build/Pump.v, the REPL's run(..., callback=f): whatever the callback raises it is called with the build's complete stream in order and no send stays blocked), stopping_pump_blocks_the_build, stop_at_first_error_refuted, and for every receiver policy callback_holds_a_prefix (received ++ never-received = the build's stream), alive_receiver_blocks_nothing, stopping_pump_blocks_iff (a stop-at-first-error receiver blocks senders exactly when the callback raises for an event that is not the last), session_restores_the_listener (over any sequence of runs with and without a callback the project's own listener is current at the end and has received exactly the streams of the runs without one) / no_restore_refuted; Output/Props_C18.v: one_channel_each_stream_in_order (producers of whole-line blocks -- a process's standard output and standard error -- through ONE channel and one copier: any interleaving, any chunking, every line once and intact, each stream in its own order), separate_copiers_refuted (a copier per stream into the one line writer tears lines), writer_per_copier_delivers_its_stream. Correspondence: per-label event sequences of every build vs the model; real lineWriter vs model on random chunkings, two rounds per writer; the four CLI renderers (line, status, JSON, DOT) driven by the event streams of ten real build scenarios (no panic, well-formed JSON stream). Oracles on the implementation: run-done once/last with Run's error, prints inside the evaluating window, evaluating iff body ran, lone failed event for missing dependencies, output of succeeding AND failing bodies (incl. an unterminated last line) delivered exactly once before the completion event; output of real processes started by os.exec / sh.exec / os.output / sh.output that write thousands of numbered lines to one stream, to both in turn, or to both at the same time (atomic whole-line blocks), with fast and slow consumers, several processes per body, failing processes, parallel targets, two processes of one shell command: every delivered line is the next line of its stream, every stream complete, inside the window; the REPL's run(label, callback=f) with callbacks that raise errors (for every non-Print event, every event, the first, every k-th, run-done only) over scripted and random projects and sequences of runs: run returns, the callback receives per label one of the three shapes, run-done once and last with the build's error, and exactly what a plain Events implementation receives for the same builds, and a plain run after the runs with a callback reports to the project's own listener again; every such run is also a case for Build/Pump.v (events sent, which of them raise, events received, events never received) and every scenario a case for its session model (runs with/without a callback, events the project's own listener received), evaluated inside Coq.",
     "level_note": "Trusted: as C01; the stream model (Build/Stream.v) composes the engine model's events with the line-writer model and is tied to the code by the protocol oracles (not by a term-by-term comparison of print events); interleavings of parallel targets and of a process's two streams are sampled by the real runner / real processes (the model quantifies over all of them; os/exec's one-pipe-per-distinct-writer behaviour is the Go standard library's and is observed, not modelled).",
     "design_ref": "DESIGN.md §6 C18",
 }
@@ -75,7 +75,7 @@ def run_callback(ctx):
         ctx.violation("run-callback harness failed (exit %d)" % rc, {"theorem_or_correspondence": "C18 run-callback harness", "output": o[-2000:]},
                       found_input=False)
         return
-    cases, by_scen, pumps = [], {}, []
+    cases, by_scen, pumps, sessions = [], {}, [], []
     for line in open(out):
         f = line.rstrip("\n").split("\t")
         if f[0] == "ORACLE":
@@ -84,6 +84,8 @@ def run_callback(ctx):
             cases.append((f[1], int(f[2]), json.loads(f[3])))
         elif f[0] == "pump":
             pumps.append((f[1], int(f[2]), int(f[3]), f[4]))
+        elif f[0] == "session":
+            sessions.append(([(r[0] == "c", int(r[2:])) for r in f[1].split(",")], int(f[2]), f[3]))
     how = "harness/overlay/root/zz_verif_c18_callback_test.go, VERIF_SEED=%d VERIF_TIER=%s (VERIF_C18_ONLY=<scenario name> plays one)" % (ctx.seed, ctx.tier)
     for scen, texts in list(by_scen.items())[:3]:
         ctx.violation("implementation violates %s" % texts[0], {"oracle": texts[:6], "scenario": json.loads(scen), "how": how})
@@ -104,6 +106,24 @@ def run_callback(ctx):
                           {"scenario": json.loads(scen), "raises": b, "received": g, "never_received": bl, "how": how})
         ctx.coverage["correspondence"]["run_callback_pump_cases"] = len(pumps)
         ctx.coverage["correspondence"]["run_callback_pump_mismatches"] = len(mism)
+    # the session model (Build/Pump.v, [session]): the runs of a scenario (callback?, events sent) -> events the project's own
+    # listener receives over the scenario
+    sitems = ["(%d%%N, ([%s], %d%%N))" % (i, ";".join("(%s, %d%%N)" % ("true" if cb else "false", n) for cb, n in runs), tot)
+              for i, (runs, tot, _s) in enumerate(sessions)]
+    oks, sres, slogs = ctx.coq_eval("From Coq Require Import List NArith Bool.\nImport ListNotations.\nFrom Dawn Require Import Build.Pump.\n",
+                                    ["session_mismatches [\n" + ";\n".join(sitems) + "]"]) if sitems else (True, [[]], [])
+    if not oks:
+        ctx.violation("session model evaluation failed", {"theorem_or_correspondence": "Build/Pump.v session evaluation", "log": slogs[:1]}, found_input=False)
+    else:
+        smism = [x for r in sres for x in r]
+        if smism and not by_scen:
+            runs, tot, scen = sessions[smism[0]]
+            ctx.violation("implementation and Build/Pump.v (session) disagree: over the runs %s (callback?, events sent) the project's own listener "
+                          "received %d events; the model delivers it exactly the streams of the runs without a callback (%d)" % (
+                              runs, tot, sum(n for cb, n in runs if not cb)),
+                          {"scenario": json.loads(scen), "runs": runs, "listener_received": tot, "how": how})
+        ctx.coverage["correspondence"]["run_callback_session_cases"] = len(sessions)
+        ctx.coverage["correspondence"]["run_callback_session_mismatches"] = len(smism)
     ctx.coverage["correspondence"]["run_callback"] = {
         "scenarios": len(cases), "runs": sum(c[2]["runs"] for c in cases), "events_delivered_to_callbacks": sum(c[2]["events"] for c in cases),
         "scenarios_by_callback_style": {str(k): sum(1 for c in cases if c[2]["style"] == k) for k in range(6)},
